@@ -1,24 +1,24 @@
 //! one module per property: `run(&Run)` explores, `replay(section, case)` re-executes one saved case
-pub mod c17;
-pub mod c18;
 pub mod c01;
-pub mod c15;
 pub mod c02;
 pub mod c03;
 pub mod c04;
-pub mod c16;
 pub mod c05;
 pub mod c06;
-pub mod c19;
-pub mod c13;
-pub mod c14;
 pub mod c07;
 pub mod c08;
-pub mod readers;
 pub mod c09;
 pub mod c10;
 pub mod c11;
 pub mod c12;
+pub mod c13;
+pub mod c14;
+pub mod c15;
+pub mod c16;
+pub mod c17;
+pub mod c18;
+pub mod c19;
+pub mod readers;
 pub mod structured;
 
 use crate::runner::CheckResult;
@@ -30,7 +30,10 @@ pub fn fuzz_replay(id: &str, section: &str, case: &Value) -> Option<CheckResult>
     match section {
         "fuzz-bytes" => Some(crate::oracle::fuzz_bytes(id, &data)),
         "fuzz-args" => Some(crate::oracle::fuzz_args(&data)),
-        "fuzz-fibex" => c12::replay("damage", &serde_json::json!({"base": {"Raw": case["data"]}, "damage": "None", "which_file": 0})),
+        "fuzz-fibex" => c12::replay(
+            "damage",
+            &serde_json::json!({"base": {"Raw": case["data"]}, "damage": "None", "which_file": 0}),
+        ),
         _ => None,
     }
 }
